@@ -47,10 +47,10 @@ PROPS = {
         explanation='restore_from_bytes proved at the level of the key/value view (slab internals, engine-resident indexes and the snapshot codec are outside it); everything else bounded.',
     ),
     'C09': dict(
-        v=['C09_locks'], k=[], b=['c09_reltx'],
-        pairs={'C09_locks': ['bounded:c09_reltx']},
+        v=['C09_locks', 'C09_rollback'], k=[], b=['c09_reltx'],
+        pairs={'C09_locks': ['bounded:c09_reltx'], 'C09_rollback': ['bounded:c09_reltx']},
         level='other',
-        technique='Verus: the row lock table kernel RowLockManager::{try_lock, release} extracted from relational_engine/src/transaction.rs and proved (refusal on a live foreign lock changes nothing, grants are all-or-nothing with frame, every granted row is listed for the transaction, release removes exactly the listed locks of that transaction); bounded native contract checks of relational transactions (rollback/commit views incl. indexed reads, lock exclusion at statement level, lock takeover after expiry, phase rules) over all short scripts of two interleaved transactions',
+        technique='Verus: the row lock table kernel RowLockManager::{try_lock, release} extracted from relational_engine/src/transaction.rs and proved (refusal on a live foreign lock changes nothing, grants are all-or-nothing with frame, every granted row is listed for the transaction, release removes exactly the listed locks of that transaction); RelationalEngine::rollback proved as a protocol over a ghost timeline (every undo entry applied once, newest first; row locks released only after the last undo entry, and always; transaction ends Aborted and removed); bounded native contract checks of relational transactions (rollback/commit views incl. indexed reads, lock exclusion at statement level, lock takeover after expiry, phase rules) over all short scripts of two interleaved transactions',
         claim='BOUNDED: on all single-transaction scripts <= 3 statements and all interleavings with one statement of a second transaction: rollback restores rows and every indexed read, commit equals non-transactional execution, modified rows conflict, multi-row lock acquisition is all-or-nothing, finished transactions are unusable, locks are released. Threads not covered.',
         explanation='Lock table kernel proved; statement-level behaviour (which rows a statement locks, undo) bounded. Threads not covered.',
     ),
